@@ -33,6 +33,8 @@ def run(ctx):
     check_parse_query(ctx, prog)
     import nullret
     nullret.check(ctx, prog, 'C09', ('Http.cpp', 'HttpServer.cpp'))
+    import litread
+    litread.check(ctx, prog, 'C09', ('Http.cpp', 'HttpServer.cpp'))
     # readHeaders() trims every folded header line: the trim helpers must not cut a negative range for blank lines
     import C03
     sp = ir.load_units([os.path.join(ir.REPO, 'src', 'String.cpp')]) if not any(f.get('pq') == 'asl::String::trimmed' and f.get('body') for f in prog.functions) else prog
